@@ -615,6 +615,7 @@ func c13() {
 		run.Set("race_reports", races)
 		run.Set("race_reports_distinct", len(frames))
 	}
+	c13BesideLoads(run, ts)
 	run.Sample(2, map[string]any{"process_dump_first_lines": strings.Split(sampleOut, "\n")[:min(4, len(strings.Split(sampleOut, "\n")))]})
 	run.Sample(2, map[string]any{"text_forms": textForms()[:6]})
 	run.Assume("compiling the same *Policy pointer concurrently is outside the property (distinct values only)",
@@ -624,6 +625,7 @@ func c13() {
 		run.Require("compilations_of_sharing_copies", 100)
 		run.Require("dump_processes", int64(nproc))
 		run.Require("compilations_under_race_detector", 500)
+		run.Require("compilation_rounds_beside_loads", 8)
 	}
 	run.Finish(run.Counter("compilations")+run.Counter("compilations_of_sharing_copies")+run.Counter("compilations_under_race_detector")+run.Counter("text_conversions"),
 		int64(len(c13Policies(run.Seed, run.N(120, 600), ts))),
